@@ -92,6 +92,14 @@ func c18ToExpr(j interface{}) (e grl.Expr, err error) {
 				return nil, fmt.Errorf("malformed")
 			}
 			arr, ok := v.([]interface{})
+			if ok && len(arr) == 1 && k == "not" {
+				// the unary form: logical negation of its operand
+				oe, err := c18ToExpr(arr[0])
+				if err != nil {
+					return nil, err
+				}
+				return &grl.Not{X: &grl.Paren{X: oe}}, nil
+			}
 			if !ok || len(arr) < 2 {
 				return nil, fmt.Errorf("malformed")
 			}
@@ -288,12 +296,37 @@ func C18(rep *ev.Reporter, tier string) {
 			}
 		}
 	}
+	// unary not (logical negation): stacked 1..4 deep over boolean nodes, and as an operand
+	for i := 0; i < len(boolNodes); i += 5 {
+		x := boolNodes[i]
+		n1 := jm("not", x)
+		n2 := jm("not", n1)
+		n3 := jm("not", n2)
+		n4 := jm("not", n3)
+		for _, n := range []interface{}{n1, n2, n3, n4} {
+			addWhen("unary-not", n)
+		}
+		addWhen("unary-not-operand", jm("and", n1, jo("obj", "F.B")))
+		addWhen("unary-not-operand", jm("or", jo("const", false), n2))
+		addWhen("unary-not-operand", jm("eq", n1, true))
+		addWhen("unary-not-operand", jm("not", n1, false))
+		addWhen("unary-not-operand", jm("eq", n2, n1))
+	}
+	for _, l := range boolLeaves {
+		addWhen("unary-not-leaf", jm("not", l))
+		addWhen("unary-not-leaf", jm("not", jm("not", l)))
+	}
 	// calls
 	addThen("call", jm("call", "F.SetI", jm("plus", "F.I", 1.0)))
 	addThen("call", jm("set", "K.I", jm("call", "F.Add", jm("plus", 1.0, 2.0), jm("mul", "F.I", 2.0))))
 	addThen("call", jm("set", "K.S", jm("call", "F.Cat", jo("const", "a,b"), jo("const", "c\"d"))))
 	addWhen("call", jm("eq", jm("call", "F.Add", 1.0, "F.I"), 6.0))
 	addWhen("call", jm("call", "F.IsPos", jm("minus", "F.I", 9.0)))
+	// then-forms: strings with and without the terminating semicolon, several actions, calls without arguments
+	cases = append(cases, c18Case{id: fmt.Sprintf("c18/then-forms/%d", len(cases)), when: "K.K == 0", then: []interface{}{"K.I = 1;", "K.K = 1"}, class: "then-forms"})
+	cases = append(cases, c18Case{id: fmt.Sprintf("c18/then-forms/%d", len(cases)), when: "K.K == 0", then: []interface{}{jm("set", "K.I", 5.0), "K.K = 1"}, class: "then-forms"})
+	cases = append(cases, c18Case{id: fmt.Sprintf("c18/then-forms/%d", len(cases)), when: "K.K == 0", then: []interface{}{jm("call", "F.Bump"), "K.K = 1"}, class: "then-forms"})
+	cases = append(cases, c18Case{id: fmt.Sprintf("c18/then-forms/%d", len(cases)), when: "K.K == 0", then: []interface{}{jm("set", "K.S", jm("plus", jo("const", "a;b"), jo("const", "}"))), "K.K = 1"}, class: "then-forms"})
 	addWhen("plain-string-operand-in-and", jm("and", "F.B", jm("eq", "F.I", 5.0)))
 	addWhen("plain-bool-operand-in-or", jm("or", false, jm("eq", "F.I", 5.0)))
 
@@ -341,7 +374,7 @@ func C18(rep *ev.Reporter, tier string) {
 		}
 		for _, t := range c.then {
 			if s, ok := t.(string); ok {
-				thenA = append(thenA, grl.A(s))
+				thenA = append(thenA, grl.A(strings.TrimSuffix(strings.TrimSpace(s), ";")))
 				continue
 			}
 			m := t.(map[string]interface{})
@@ -453,7 +486,7 @@ func C18(rep *ev.Reporter, tier string) {
 		rep.Exhaustive = false
 		rep.Coverage["caps_hit"] = "time budget"
 	}
-	rep.Coverage["rule"] = "every JSON operator tree of depth 1 over all 15 operators and operand forms {plain string, number, bool, obj, const of each kind}; depth 2 with a nested operand on either side (quick: every 3rd depth-1 node as nested operand; thorough: all, both sides nested, depth-3 logic trees); 3-operand forms; set/call trees in `then`; calls with nested arguments; hostile string constants; boundary numeric constants; names/descriptions/saliences; malformed rules. Oracle: the JSON tree is read directly (operands grouped exactly as nested, n-ary left-associated) and evaluated by the reference evaluator; the translated text must be accepted by the real builder, keep name/description/salience, give the same candidate flag and the same facts after firing. Ill-typed trees (per the reference) are not judged. Non-trivial: a well-typed tree whose translated rule was built and compared."
+	rep.Coverage["rule"] = "every JSON operator tree of depth 1 over all 15 operators and operand forms {plain string, number, bool, obj, const of each kind}; depth 2 with a nested operand on either side (quick: every 3rd depth-1 node as nested operand; thorough: all, both sides nested, depth-3 logic trees); 3-operand forms; unary not stacked 1..4 deep and as operand; set/call trees in `then`; calls with nested arguments; hostile string constants; boundary numeric constants; names/descriptions/saliences; malformed rules. Oracle: the JSON tree is read directly (operands grouped exactly as nested, n-ary left-associated) and evaluated by the reference evaluator; the translated text must be accepted by the real builder, keep name/description/salience, give the same candidate flag and the same facts after firing. Ill-typed trees (per the reference) are not judged. Non-trivial: a well-typed tree whose translated rule was built and compared."
 }
 
 func c18FloatSink(w *ref.World) (float64, bool) { return w.Objs["K"].F, true }
